@@ -4017,3 +4017,11 @@ where
 {
     (n % rhs == N::default()).then_some(n / rhs)
 }
+
+// verification hook (add-only): harnesses live outside the repository and
+// are compiled only by the Kani compiler, which is what sets `cfg(kani)`
+#[cfg(kani)]
+#[allow(dead_code, unused_imports, unused_variables, missing_docs)]
+mod verif_kani {
+    include!(concat!(env!("FLAC_CODEC_VERIF_KANI"), "/k_encode.rs"));
+}
